@@ -12,10 +12,12 @@ from .interp import PyRaise
 class GhostLock:
     _n = [0]
 
-    def __init__(self, eng, name=None):
+    def __init__(self, eng, name=None, kind="process-shared"):
         self.eng = eng
+        self.kind = kind  # 'process-shared' (multiprocessing.Lock) | 'thread-only' (threading.Lock)
         GhostLock._n[0] += 1
         self.name = name or f"lock{GhostLock._n[0]}"
+        eng.__dict__.setdefault("lock_kinds", {})[self.name] = kind
 
     def __enter__(self):
         self.acquire()
@@ -96,6 +98,14 @@ class OsModel:
 def install(eng):
     M = eng.models
     M["multiprocessing.Lock!obj"] = lambda *a, **k: GhostLock(eng)
+    M["multiprocessing.RLock!obj"] = lambda *a, **k: GhostLock(eng, kind="process-shared-reentrant")
+    M["threading.Lock!obj"] = lambda *a, **k: GhostLock(eng, kind="thread-only")
+    M["threading.RLock!obj"] = lambda *a, **k: GhostLock(eng, kind="thread-only")
+
+    class _Threading:
+        Lock = staticmethod(lambda *a, **k: GhostLock(eng, kind="thread-only"))
+        RLock = staticmethod(lambda *a, **k: GhostLock(eng, kind="thread-only"))
+    M["threading"] = _Threading()
     M["multiprocessing.Pool!obj"] = lambda *a, **k: PoolModel(eng, *a, **k)
     M["multiprocessing.Process!obj"] = object
 
